@@ -407,7 +407,8 @@ def main(run):
         "element such as Cr1/Cr2 with equal and different masses); primitive matrices "
         "P/F/I/A/C/R/auto. Compared exactly with the Lean model: SNF D,P,Q, xgcd triples, index maps, permutations; positions as "
         "rationals (|d| <= 1e-9 modulo 1). The tiling statement itself is evaluated on every implementation result. "
-        "Symmetry tolerance: symprec in {1e-2,1e-3,1e-5,1e-7} on ideal cells whose supercell holds 54..256 primitive cells (must be built and tile). "
+        "Description invariance: left-handed / sheared / cyclically relabelled descriptions of centred prototypes (gen.UNIMODULAR) with pmat auto, "
+        "centring letter and explicit matrix must tile and hold the same atoms. Symmetry tolerance: symprec in {1e-2,1e-3,1e-5,1e-7} on ideal cells whose supercell holds 54..256 primitive cells (must be built and tile). "
         "Non-trivial = supercell matrix not diagonal (or primitive index > 1 for primitive cases); distinct by (cell, matrix, route).")
     run.cov["trusted_base"] = [
         "Lean 4.33 kernel; Mathlib v4.33; axioms per theorem in coverage.theorems",
@@ -561,6 +562,7 @@ def main(run):
         # primitive
         if prim is not None and True in scs:
             do_primitive(c, S, scs, prim, with_model, api)
+        return scs
 
     def do_primitive(c, S, scs, prim, with_model, api):
         cell = c["atoms"]
@@ -728,6 +730,68 @@ def main(run):
                     continue
                 run.count("labelled-species cases")
                 do_supercell(c, S, with_model=True, prim=pmx, api=(isinstance(pmx, str) and pmx != "auto"))
+    # description invariance: the same crystal with relabelled lattice vectors a'_i = sum_j M_ij a_j (left-handed for det M = -1,
+    # non-reduced for the shear), supercell matrix S' = M^-T S M^T of the same supercell lattice. Every description must tile
+    # (supercell, primitive cell, index maps, classic = SNF) and both descriptions must hold the same atoms modulo the supercell lattice.
+    def relabelled_rational(c, tag, M):
+        M = np.array(M, dtype=int)
+        Minv = np.rint(np.linalg.inv(M)).astype(int)
+        a0 = c["atoms"]
+        pos = [[sum(Fr(p[k]) * int(Minv[k][l]) for k in range(3)) for l in range(3)] for p in c["pos"]]
+        pos = [[x - (x.numerator // x.denominator) for x in p] for p in pos]
+        keep = tag in ("swap12", "negate3", "invert") or (tag == "cyclic" and c["centring"] in ("F", "I", "P"))
+        return rational_cell(c["name"] + "@" + tag, M @ a0.cell, a0.symbols, pos, masses=None if a0.masses is None else list(a0.masses),
+                             magmoms=a0.magnetic_moments, centring=c["centring"] if keep else "none"), M, Minv
+
+    lefts = ["swap12", "negate3", "invert"]
+    relab = [rng.choice(lefts), rng.choice(lefts), rng.choice(["shear", "cyclic"])] + ([rng.choice(list(gen.UNIMODULAR))] if thorough else [])
+    rel_protos = ["nacl", "bcc", "mono_C", "fcc", "ortho_C", "bct"]
+    rng.shuffle(rel_protos)
+    for tag, name in zip(relab, rel_protos):
+        c = cells[name]
+        c2, M, Minv = relabelled_rational(c, tag, gen.UNIMODULAR[tag])
+        cen = c["centring"]
+        for S in (np.eye(3, dtype=int), np.array([[1, 1, 0], [0, 1, 0], [0, 0, 2]])):
+            S2 = Minv.T @ S @ M.T
+            if int(round(np.linalg.det(S))) * len(c["atoms"]) > 48:
+                continue
+            Pexp = fmul(fmul(Minv.T.tolist(), CENTRING[cen]), M.T.tolist())  # same primitive lattice, positive determinant
+            prims = ["auto", Pexp] + ([cen] if c2["centring"] == cen else [])
+            for pmx in prims:
+                run.count("relabelled description %s" % tag)
+                run.count("relabelled primitive %s" % (pmx if isinstance(pmx, str) else "explicit"))
+                scs2 = do_supercell(c2, S2, with_model=True, prim=pmx, api=(pmx == "auto"))
+            scs1 = {}
+            for old in (True, False):
+                sc1, exc1 = try_impl(get_supercell, c["atoms"], S, is_old_style=old)
+                if exc1 is None:
+                    scs1[old] = sc1
+            for old in (True, False):
+                if old in scs1 and old in scs2:
+                    a, b = scs1[old], scs2[old]
+                    run.count("oracle-description-invariance", section="oracle")
+                    T = b.cell @ np.linalg.inv(a.cell)
+                    bad = []
+                    if np.abs(T - np.rint(T)).max() > 1e-8 or abs(abs(np.linalg.det(np.rint(T))) - 1) > 1e-8:
+                        bad.append(("relabelled-lattice-differs", "the supercells of the two descriptions span different lattices"))
+                    elif len(a) != len(b):
+                        bad.append(("relabelled-atoms-differ", "%d vs %d atoms" % (len(a), len(b))))
+                    else:
+                        Lm = a.cell
+                        Li = np.linalg.inv(Lm)
+                        ca, cb = a.scaled_positions @ a.cell, b.scaled_positions @ b.cell
+                        used = set()
+                        for i in range(len(a)):
+                            d = (cb - ca[i]) @ Li
+                            d -= np.rint(d)
+                            js = [j for j in np.where(np.sqrt(((d @ Lm) ** 2).sum(axis=1)) < 1e-4)[0] if j not in used and _attr_equal(a, b, i, j) is None]
+                            if len(js) != 1:
+                                bad.append(("relabelled-atoms-differ", "atom %d of the original description has %d partners in the relabelled one" % (i, len(js))))
+                                break
+                            used.add(js[0])
+                    for kl, what in bad:
+                        run.violation("get_supercell(is_old_style=%s)" % old, kl, what,
+                                      dict(cell=name, relabelling=tag, M=M.tolist(), supercell_matrix=S.tolist(), relabelled_supercell_matrix=S2.tolist()))
     # symmetry-tolerance dimension: ideal (exactly rational) positions, supercells holding many primitive cells, symprec from
     # 1e-2 to 1e-7. A tileable ideal input must be BUILT and tile for every such symprec (noise is ~1e-16).
     tol_cases = [("fcc", "F", 3), ("bcc", "I", 3), ("sc", "P", 5), ("fcc", "auto", 3), ("bcc", "I", 4)] + ([("fcc", "F", 4)] if thorough or rng.random() < 0.5 else [("cscl", "P", 4)])
